@@ -15,6 +15,18 @@ use std::io;
 use std::pin::Pin;
 use std::task::{Context, Poll};
 
+/// Stub for `alloc::sync::Arc::<T, A>::drop_slow` (used only by harnesses that say so): the last
+/// Arc to an object leaks it instead of running the pointee's destructor.  Needed where tarpc code
+/// drops a `tracing::Span`: its niche-encoded `Option<Inner>` makes CBMC explore the drop of
+/// `Arc<dyn Subscriber>`, a virtual call it resolves by signature to dozens of unrelated functions.
+#[cfg(kani)]
+pub fn noop_arc_drop_slow<T: ?Sized, A: std::alloc::Allocator>(_: &mut std::sync::Arc<T, A>) {}
+
+/// A transport error without drop glue (io::Error's recursive `dyn Error` glue is what CBMC drowns in).
+#[derive(Debug)]
+pub struct TErr;
+impl std::fmt::Display for TErr { fn fmt(&self, _: &mut std::fmt::Formatter<'_>) -> std::fmt::Result { Ok(()) } }
+impl std::error::Error for TErr {}
 const SCRIPT: usize = 3;
 /// what the inner channel's stream does at its k-th poll: 0 = yields request with id ID[k],
 /// 1 = Pending, 2 = end of stream, 3 = transport error
@@ -51,7 +63,7 @@ fn tracked(id: u64) -> TrackedRequest<u32> {
     }
 }
 impl Stream for M {
-    type Item = io::Result<TrackedRequest<u32>>;
+    type Item = Result<TrackedRequest<u32>, TErr>;
     fn poll_next(self: Pin<&mut Self>, _: &mut Context<'_>) -> Poll<Option<Self::Item>> {
         let k = unsafe { POLLS };
         assert!(k < SCRIPT);
@@ -65,23 +77,23 @@ impl Stream for M {
             }
             1 => Poll::Pending,
             2 => Poll::Ready(None),
-            _ => Poll::Ready(Some(Err(io::Error::from(io::ErrorKind::BrokenPipe)))),
+            _ => Poll::Ready(Some(Err(TErr))),
         }
     }
 }
 impl Sink<Response<u32>> for M {
-    type Error = io::Error;
-    fn poll_ready(self: Pin<&mut Self>, _: &mut Context<'_>) -> Poll<io::Result<()>> {
+    type Error = TErr;
+    fn poll_ready(self: Pin<&mut Self>, _: &mut Context<'_>) -> Poll<Result<(), TErr>> {
         let k = unsafe { READY_POLLS };
         assert!(k < SCRIPT);
         unsafe { READY_POLLS += 1; }
         match unsafe { READY_KIND[k] } {
             0 => { unsafe { LAST_READY_OK = true; } Poll::Ready(Ok(())) }
             1 => Poll::Pending,
-            _ => Poll::Ready(Err(io::Error::from(io::ErrorKind::BrokenPipe))),
+            _ => Poll::Ready(Err(TErr)),
         }
     }
-    fn start_send(self: Pin<&mut Self>, r: Response<u32>) -> io::Result<()> {
+    fn start_send(self: Pin<&mut Self>, r: Response<u32>) -> Result<(), TErr> {
         if !unsafe { LAST_READY_OK } { unsafe { SENT_WITHOUT_READY = true; } }
         unsafe { LAST_READY_OK = false; }
         let throttle = matches!(&r.message, Err(e) if e.kind == io::ErrorKind::WouldBlock);
@@ -90,8 +102,8 @@ impl Sink<Response<u32>> for M {
         std::mem::forget(r);
         Ok(())
     }
-    fn poll_flush(self: Pin<&mut Self>, _: &mut Context<'_>) -> Poll<io::Result<()>> { Poll::Ready(Ok(())) }
-    fn poll_close(self: Pin<&mut Self>, _: &mut Context<'_>) -> Poll<io::Result<()>> { Poll::Ready(Ok(())) }
+    fn poll_flush(self: Pin<&mut Self>, _: &mut Context<'_>) -> Poll<Result<(), TErr>> { Poll::Ready(Ok(())) }
+    fn poll_close(self: Pin<&mut Self>, _: &mut Context<'_>) -> Poll<Result<(), TErr>> { Poll::Ready(Ok(())) }
 }
 impl Channel for M {
     type Req = u32;
@@ -111,6 +123,9 @@ fn script() {
         }
         i += 1;
     }
+    // the last scripted stream event is not another request: every poll of the limiter ends
+    // within the script (it stops at Pending / end of stream / error, or hands a request over)
+    assume(unsafe { NEXT_KIND[SCRIPT - 1] } != 0);
 }
 
 /// One poll of the limited channel from an arbitrary state; everything the property says about
@@ -157,6 +172,7 @@ fn one_poll(limit: usize, start_in_flight: usize) {
             assert!(tag == T_YIELDED_BY_INNER && lid == id);
             assert!(inflight < limit);
             witness!(throttled == 0, "request handed over without throttling");
+            witness!(throttled >= 1, "a request handed over after others were throttled in the same poll");
         }
         None => {
             // every request the inner channel yielded during this poll was answered with a throttle error
@@ -164,6 +180,8 @@ fn one_poll(limit: usize, start_in_flight: usize) {
             while j < n { if unsafe { LOG[j].0 } == T_YIELDED_BY_INNER { yielded += 1; } j += 1; }
             assert!(yielded == throttled);
             witness!(throttled >= 1, "at least one request throttled");
+            witness!(throttled >= 2, "two requests throttled in one poll");
+            witness!(throttled == 0, "nothing yielded by the inner channel (pending / closed / error)");
         }
     }
 }
@@ -179,6 +197,7 @@ macro_rules! c12_harnesses {
             #[cfg_attr(kani, kani::stub(alloc::fmt::format, crate::nd::stub_format))]
             #[cfg_attr(kani, kani::stub(tracing::span::Span::do_enter, crate::nd::noop_span))]
             #[cfg_attr(kani, kani::stub(tracing::span::Span::do_exit, crate::nd::noop_span))]
+            #[cfg_attr(kani, kani::stub(alloc::sync::Arc::drop_slow, super::verif_overlay_c12::noop_arc_drop_slow))]
             pub fn $name() $body
         )*
         pub const HARNESSES: &[(&str, fn())] = &[ $( (stringify!($name), $name as fn()) ),* ];
